@@ -74,4 +74,4 @@ def extra(chk, sd, binp):
 
 
 def run(tier):
-    return pc.run_check("C13", tier, ("C13",), plans(tier), snap=True, extra=extra)
+    return pc.run_check("C13", tier, ("C13",), plans(tier), snap=True, extra=extra, guards={"mix"})
